@@ -170,6 +170,10 @@ OP = st.one_of(
     st.tuples(st.just("setitem"), I4, I4), st.tuples(st.just("setitem"), I4, I4),
     st.tuples(st.just("append_bare")),
     st.tuples(st.just("table_set"), st.sampled_from("ab"), I4), st.tuples(st.just("table_pop"), st.sampled_from("ab")),
+    # pop with a DEFAULT that happens to be the very object stored under the key
+    st.tuples(st.just("table_pop_same"), st.sampled_from("ab")),
+    # a quiet (notification-free) bulk assignment that is REFUSED: it must leave notifications switched on
+    st.tuples(st.just("quiet_refused"), st.sampled_from(["a", "child", "children"])),
     st.tuples(st.just("table_update"), st.lists(st.tuples(st.sampled_from("abc"), I4).map(list), max_size=3)),
     st.tuples(st.just("group_add"), I4), st.tuples(st.just("group_discard"), I4),
     st.tuples(st.just("nested_append"), I4, I4), st.tuples(st.just("nested_set"), I4, st.lists(I4, max_size=2)),
@@ -379,6 +383,16 @@ def run(case, ctx):
             o.table[op[1]] = pool[op[2] % n]
         elif k == "table_pop":
             o.table.pop(op[1], None)
+        elif k == "table_pop_same":
+            o.table.pop(op[1], o.table.get(op[1]))
+        elif k == "quiet_refused":
+            from traits.api import TraitError as _TE
+            try:
+                o.trait_set(trait_change_notify=False, **{op[1]: "not acceptable"})
+                ctx.fail("setup/accepted", "trait_set(%s='not acceptable') was accepted" % op[1])
+            except _TE:
+                pass
+            ctx.label("quiet-assignment-refused")
         elif k == "table_update":
             o.table.update({a: pool[b % n] for a, b in op[1]})
         elif k == "group_add":
